@@ -197,14 +197,6 @@ Interpolation::Interpolation(const std::vector<double>& arg_values, const std::v
 		std::cerr << "Error in libphysica::Interpolation::Interpolation(): At least three points are required, but only " << N << " were given." << std::endl;
 		std::exit(EXIT_FAILURE);
 	}
-	for(unsigned int i = 1; i < N; i++)
-	{
-		if(x_values[i] <= x_values[i - 1])
-		{
-			std::cerr << "Error in libphysica::Interpolation::Interpolation(): Argument list not strictly increasing." << std::endl;
-			std::exit(EXIT_FAILURE);
-		}
-	}
 	// Transform units
 	if(x_dim > 0.0)
 		for(unsigned int i = 0; i < N; i++)
@@ -212,6 +204,15 @@ Interpolation::Interpolation(const std::vector<double>& arg_values, const std::v
 	if(f_dim > 0.0)
 		for(unsigned int i = 0; i < N; i++)
 			function_values[i] *= f_dim;
+	// The abscissae as they are stored (after the unit conversion, which can round two neighbours onto each other) must be strictly increasing; the negated comparison also rejects NaN.
+	for(unsigned int i = 1; i < N; i++)
+	{
+		if(!(x_values[i] > x_values[i - 1]))
+		{
+			std::cerr << "Error in libphysica::Interpolation::Interpolation(): Argument list not strictly increasing." << std::endl;
+			std::exit(EXIT_FAILURE);
+		}
+	}
 
 	domain = {x_values[0], x_values[N - 1]};
 	Compute_Steffen_Coefficients();
